@@ -11,15 +11,23 @@ from .. import flowlib as fl
 from ..util import exc_name
 
 
-def run_real(prog, n, pairs, shape, as_source):
-    """Build fresh elements in the given bracketing and run.  Returns (built, out)."""
+def run_real(prog, n, pairs, shape, as_source, flowkind="iter", calls=1):
+    """Build fresh elements in the given bracketing and run.  Returns (built, out).
+
+    flowkind: how the flow is handed over - "iter" (an iterator), "list" / "tuple" (re-iterable
+    containers; for a Source the container itself is the first element).  calls > 1: the same
+    Source object is called repeatedly (a container-based Source generates the same flow each time);
+    the outputs of all calls must be equal and are returned once."""
     import lena.core
     els = [fl.build_stage(st, pairs) for st in prog]
     flow = [fl.make_value(i, pairs) for i in range(n)]
+    given = {"iter": lambda: iter(flow), "list": lambda: list(flow), "tuple": lambda: tuple(flow)}[flowkind]
     try:
         args = fl.nest(els, shape)
         if as_source:
-            seq = lena.core.Source(lambda: iter(flow), *args)
+            first = (lambda: iter(flow)) if flowkind == "iter" else given()
+            with fl.quiet_warnings():
+                seq = lena.core.Source(first, *args)
         else:
             seq = lena.core.Sequence(*args)
     except lena.core.LenaTypeError:
@@ -28,11 +36,21 @@ def run_real(prog, n, pairs, shape, as_source):
         return exc_name(exc), None
     try:
         with fl.quiet():
-            res = seq() if as_source else seq.run(iter(flow))
-            out = [fl.project(v) for v in res]
+            outs = []
+            for _ in range(calls):
+                res = seq() if as_source else seq.run(given())
+                outs.append([fl.project(v) for v in res])
+            out = outs[0]
+            if any(o != out for o in outs[1:]):
+                return "ok", {"calls-differ": outs}
     except Exception as exc:    # noqa
         return "ok", "raised-at-run " + exc_name(exc)
     return "ok", out
+
+
+def stateless(prog):
+    """Programs whose elements can be run twice (accumulators keep state between runs)."""
+    return all(st["t"] not in ("sum", "last", "count", "split") for st in prog)
 
 
 def replay(ctx, rec, all_shapes=True):
@@ -40,21 +58,31 @@ def replay(ctx, rec, all_shapes=True):
     exp_out = [fl.norm_spec_val(v) for v in rec["out"]]
     shapes = fl.shapes(len(prog)) if all_shapes else [list(range(len(prog)))]
     ok = True
-    for shape in shapes:
-        for as_source in (False, True):
-            built, out = run_real(prog, n, pairs, shape, as_source)
-            ctx.evaluations += 1
-            if built != rec["built"]:
-                ok = False
-                kinds = "+".join(st["t"] if st["t"] != "bad" else "bad:" + st["k"] for st in prog)
-                ctx.violation("build:%s:expected=%s:got=%s" % (kinds, rec["built"], built),
-                              {"prog": prog, "shape": shape, "source": as_source})
-            elif built == "ok" and out != exp_out:
-                ok = False
-                kinds = "+".join(st["t"] for st in prog)
-                ctx.violation("run:%s%s" % (kinds, ":source" if as_source else ""),
-                              {"prog": prog, "n": n, "pairs": pairs, "shape": shape, "source": as_source,
-                               "expected": exp_out, "observed": out})
+    variants = [(shape, src, "iter", 1) for shape in shapes for src in (False, True)]
+    flat = list(range(len(prog)))
+    # the flow may be any finite iterable: re-iterable containers, flat and with the first element nested
+    variants += [(flat, False, "list", 1), (flat, False, "tuple", 1), (flat, True, "list", 1)]
+    if len(prog) >= 1:
+        variants.append(([[0]] + flat[1:], False, "list", 1))
+    if stateless(prog):
+        # a Source over a container generates the same flow on every call
+        variants += [(flat, True, "list", 2), (flat, True, "iter", 2)]
+    for shape, as_source, flowkind, calls in variants:
+        built, out = run_real(prog, n, pairs, shape, as_source, flowkind, calls)
+        ctx.evaluations += 1
+        if built != rec["built"]:
+            ok = False
+            kinds = "+".join(st["t"] if st["t"] != "bad" else "bad:" + st["k"] for st in prog)
+            ctx.violation("build:%s:expected=%s:got=%s" % (kinds, rec["built"], built),
+                          {"prog": prog, "shape": shape, "source": as_source})
+        elif built == "ok" and out != exp_out:
+            ok = False
+            kinds = "+".join(st["t"] for st in prog)
+            ctx.violation("run:%s%s%s%s" % (kinds, ":source" if as_source else "",
+                                            "" if flowkind == "iter" else ":flow=" + flowkind,
+                                            "" if calls == 1 else ":calls=%d" % calls),
+                          {"prog": prog, "n": n, "pairs": pairs, "shape": shape, "source": as_source,
+                           "flowkind": flowkind, "calls": calls, "expected": exp_out, "observed": out})
     return ok
 
 
@@ -83,18 +111,22 @@ def run(ctx):
                 "sum", "last", "split"]
     trace = []
     ntr = 1500 if ctx.thorough else 300
-    while len(trace) < ntr:
+    attempts = 0
+    while len(trace) < ntr and attempts < 2 * ntr:
+        attempts += 1
         prog = [fl.random_stage(rnd, alphabet) for _ in range(rnd.randint(0, 6))]
         n, pairs = rnd.randint(0, 12), rnd.random() < 0.6
         if not pairs and any(st.get("f") == "id" for st in prog):
             pass     # Print is used for bare data
         shape = random_shape(rnd, list(range(len(prog))))
-        built, out = run_real(prog, n, pairs, shape, rnd.random() < 0.3)
+        built, out = run_real(prog, n, pairs, shape, rnd.random() < 0.3, rnd.choice(["iter", "iter", "list", "tuple"]))
         if built != "ok" or not isinstance(out, list):
             ctx.violation("random-run:%s" % (out if built == "ok" else built), {"prog": prog, "n": n, "shape": shape})
-            break
+            continue
         trace.append({"prog": prog, "n": n, "pairs": pairs, "out": out, "pulls": [], "lazy": False,
                       "shape": repr(shape)})
+    if not trace:
+        return ctx.finish(rule="no random program could be run on the real code (reported as violations)")
     acc = ctx.validate("Trace_Flow", "Trace_Flow.cfg", trace)
     ctx.traces += acc
     ctx.evaluations += len(trace)
@@ -104,14 +136,15 @@ def run(ctx):
         r = trace[acc]
         ctx.violation("Trace_Flow:rejected:%s" % "+".join(st["t"] for st in r["prog"]), {"record": r, "index": acc})
     ctx.sample({"recorded_trace_record": trace[min(3, len(trace) - 1)]})
-    # binding demonstration
-    bad = [dict(r) for r in trace[:30]]
-    k = next(i for i, r in enumerate(bad) if r["out"])
-    bad[k] = dict(bad[k], out=bad[k]["out"][1:])
-    acc2 = ctx.validate("Trace_Flow", "Trace_Flow.cfg", bad, label="corrupt")
-    if acc2 != k:
-        raise core.MachineryError("Trace_Flow does not bind: corrupted %d accepted %d" % (k, acc2))
-    ctx.extra["binding_demo"] = "record %d with its first output removed is rejected at index %d" % (k, acc2)
+    # binding demonstration (only when the recorded trace itself was accepted)
+    if acc == len(trace) and not ctx.violations:
+        bad = [dict(r) for r in trace[:30]]
+        k = next(i for i, r in enumerate(bad) if r["out"])
+        bad[k] = dict(bad[k], out=bad[k]["out"][1:])
+        acc2 = ctx.validate("Trace_Flow", "Trace_Flow.cfg", bad, label="corrupt")
+        if acc2 != k:
+            raise core.MachineryError("Trace_Flow does not bind: corrupted %d accepted %d" % (k, acc2))
+        ctx.extra["binding_demo"] = "record %d with its first output removed is rejected at index %d" % (k, acc2)
     return ctx.finish(
         rule="S2C: all programs of the bounded Flow model x flows x {bare, pairs}, each in every bracketing "
              "and as a Source tail; non-trivial = non-empty program and flow; C2S: seeded random programs "
